@@ -118,6 +118,11 @@ C08 = ['C08', 'C13']
 for _n in ('ceil', 'floor', 'trunc', 'nearbyint', 'rint'):
     op(_n, 'round', C08, FPS, 'b', 'b', 'xsimd::%s(a)' % _n, S.rounding(_n))
 
+op('round', 'round', C08, FPS, 'b', 'b', 'xsimd::round(a)', S.round_spec)
+op('is_flint', 'fp', C02, FPS, 'b', 'm', 'xsimd::is_flint(a)', S.is_flint_spec)
+op('is_even', 'fp', C02, FPS, 'b', 'm', 'xsimd::is_even(a)', S.is_even_spec)
+op('is_odd', 'fp', C02, FPS, 'b', 'm', 'xsimd::is_odd(a)', S.is_odd_spec)
+
 # ---- C03 (masks) ---------------------------------------------------------------
 from engine import terms as _T
 op('mb_and', 'mask', C03, ALL, 'mm', 'm', '(m & n)', lambda ty, m, n: [S.P('and', _T.and_(m, n))])
@@ -212,6 +217,8 @@ C19 = ['C19']
 
 
 def _lit(ty, k, e):
+    if not isinstance(e, int) or isinstance(e, bool):
+        return str(e)
     if k == 'Bv':
         return 'true' if e else 'false'
     if k == 'V' and isinstance(e, int):
@@ -227,9 +234,43 @@ op('bc_as_batch_m', 'const', C19, INTS, '', 'b', 'xsimd::batch_constant<{T}, A, 
    variants=lambda ty, cfg, tier: [{'V': tuple(v)} for v in MK.value_packs(ty, _nl(ty, cfg), 'quick', 'bcm')[:6]])
 op('bbc_as_batch_bool', 'const', C19, ALL, '', 'm', 'M_<{T}>(xsimd::batch_bool_constant<{T}, A, {Bv}>{{}})', WS.const_bool_spec, whole=True, lit=_lit,
    variants=lambda ty, cfg, tier: [{'Bv': tuple(v)} for v in MK.bool_packs(_nl(ty, cfg), tier, 'bbc')])
-op('select_const', 'const', C19, ALL, 'bb', 'b', 'xsimd::select(xsimd::batch_bool_constant<{T}, A, {Bv}>{{}}, a, b)', WS.select_const_spec, whole=True, lit=_lit,
+op('select_const', 'const', C19 + ['C03'], ALL, 'bb', 'b', 'xsimd::select(xsimd::batch_bool_constant<{T}, A, {Bv}>{{}}, a, b)', WS.select_const_spec, whole=True, lit=_lit,
    variants=lambda ty, cfg, tier: [{'Bv': tuple(v)} for v in MK.bool_packs(_nl(ty, cfg), tier, 'selc')])
 op('swizzle_dyn', 'const', C19, ALL, 'b', 'b', 'xsimd::swizzle(a, xsimd::batch_constant<{U}, A, {V}>{{}}.as_batch())', WS.swizzle_spec, whole=True,
    variants=lambda ty, cfg, tier: [{'V': tuple(v)} for v in MK.swizzle_masks(_nl(ty, cfg), 'quick', 'swd')[:40 if tier == 'quick' else 400]])
+
+# ---- C06 conversions -------------------------------------------------------------
+from .configs import TY_BY_NAME as _TY
+C06 = ['C06']
+
+
+def _clit(ty, k, e):
+    if k in ('To', 'From'):
+        return _TY[e].c
+    return str(e)
+
+
+def _same_width(ty):
+    return [{'To': t.name} for t in ALL if t.bits == ty.bits]
+
+
+def _all_types(key):
+    return lambda ty: [{key: t.name} for t in ALL]
+
+
+op('batch_cast', 'conv', C06, ALL, 'b', 'R_<{To}>', 'xsimd::batch_cast<{To}>(a)', WS.cast_spec, whole=True, lit=_clit, variants=_same_width)
+op('to_int', 'conv', C06, FPS, 'b', 'R_<{IT}>', 'xsimd::to_int(a)', WS.to_int_spec, whole=True)
+op('to_float', 'conv', C06, [t for t in INTS if t.signed and t.bits >= 32], 'b', 'R_<{To}>', 'xsimd::to_float(a)', WS.cast_spec, whole=True, lit=_clit,
+   variants=lambda ty: [{'To': 'f32' if ty.bits == 32 else 'f64'}])
+op('bitwise_cast', 'conv', C06, ALL, 'b', 'R_<{To}>', 'xsimd::bitwise_cast<{To}>(a)', WS.bitwise_cast_spec, whole=True, lit=_clit, variants=_all_types('To'))
+op('load_as_a', 'conv', C06, ALL, 'p', 'b', 'xsimd::load_as<{T}, A>(p, xsimd::aligned_mode())', WS.load_as_spec(True), whole=True, lit=_clit, variants=_all_types('From'),
+   ptr_type=lambda ty, var: _TY[var['From']].c, mem_bits=lambda ty, var: _TY[var['From']].bits)
+op('load_as_u', 'conv', C06, ALL, 'p', 'b', 'xsimd::load_as<{T}, A>(p, xsimd::unaligned_mode())', WS.load_as_spec(False), whole=True, lit=_clit, variants=_all_types('From'),
+   ptr_type=lambda ty, var: _TY[var['From']].c, mem_bits=lambda ty, var: _TY[var['From']].bits)
+op('store_as_a', 'conv', C06, ALL, 'bP', 'void', 'xsimd::store_as(o, a, xsimd::aligned_mode())', WS.store_as_spec(True), whole=True, lit=_clit, variants=_all_types('To'),
+   ptr_type=lambda ty, var: _TY[var['To']].c, mem_bits=lambda ty, var: _TY[var['To']].bits)
+op('store_as_u', 'conv', C06, ALL, 'bP', 'void', 'xsimd::store_as(o, a, xsimd::unaligned_mode())', WS.store_as_spec(False), whole=True, lit=_clit, variants=_all_types('To'),
+   ptr_type=lambda ty, var: _TY[var['To']].c, mem_bits=lambda ty, var: _TY[var['To']].bits)
+op('broadcast_as', 'conv', C06, ALL, 's', 'R_<{To}>', 'xsimd::broadcast_as<{To}, A>(s)', WS.broadcast_as_spec, whole=True, lit=_clit, variants=_all_types('To'))
 
 BY_NAME = dict((o.name, o) for o in OPS)
